@@ -103,6 +103,10 @@ var c14pieces = []string{`"`, `\`, `\"`, `\\`, `\n`, "\n", "\r", "\r\n", "\t", "
 	// literal text that looks like an escape sequence the encoder itself emits (a server can send these six characters)
 	`\u0026`, `\u003c`, `\u003e`, `\\u0026`, `u0026`, `\u003C`, `&amp;`, `\u2028`, `\x3c`}
 
+// very long values: up to 1 MiB in the thorough tier, 150 kB in the quick one (a 1 MiB string of hostile bytes
+// costs seconds under the race detector, several of them per round)
+var c14longSizes = []int{1000, 70000, 1 << 20}
+
 func c14str(rng *rand.Rand, valid bool) string {
 	switch rng.Intn(12) {
 	case 0:
@@ -110,7 +114,7 @@ func c14str(rng *rand.Rand, valid bool) string {
 	case 1:
 		return fmt.Sprintf("host-%d", rng.Intn(1000))
 	case 2: // long
-		n := []int{1000, 70000, 1 << 20}[rng.Intn(3)]
+		n := c14longSizes[rng.Intn(3)]
 		if rng.Intn(4) != 0 {
 			n = 1000
 		}
@@ -616,6 +620,9 @@ func TestVerifC14Values(t *testing.T) {
 	run := vlab.Begin(t, "C14", "values")
 	defer run.End()
 	rng := run.Rand(fmt.Sprintf("values/%d", run.Batch()))
+	if !run.Thorough() {
+		c14longSizes = []int{1000, 70000, 150000}
+	}
 	rounds := run.Pick(60, 900) / run.NBatch()
 	if rounds < 2 {
 		rounds = 2
